@@ -41,8 +41,12 @@ Section AddrTextProofs.
   Hypothesis bech32_rt : forall hrp d s, bech32_enc hrp d = Ok s -> bech32_dec hrp s = Ok d.
   Hypothesis segwit_rt : forall hrp v p s, segwit_enc hrp v p = Ok s -> segwit_dec hrp s = Ok (v, p).
   Hypothesis cash_rt : forall hrp nv d s, cash_enc hrp nv d = Ok s -> cash_dec hrp s = Ok (nv, d).
-  Hypothesis b32_rt : forall al d s, b32_enc_nopad al d = Ok s -> b32_dec al s = Ok d.
-  Hypothesis ss58_rt : forall d f s, ss58_enc d f = Ok s -> ss58_dec s = Ok (f, d).
+  Variable alph_ok : option (list N) -> Prop.
+  Hypothesis b32_rt : forall al d s, alph_ok al -> bytes_ok d -> b32_enc_nopad al d = Ok s -> b32_dec al s = Ok d.
+  Hypothesis s5_ok : forall x, bytes_ok (sha512_256 x).
+  Hypothesis b2b_ok : forall n x, bytes_ok (blake2b n x).
+  Hypothesis crc_ok : forall x, bytes_ok (crc16_xmodem x).
+  Hypothesis ss58_rt : forall d f s, bytes_ok d -> ss58_enc d f = Ok s -> ss58_dec s = Ok (f, d).
 
   Notation h160 := (hash160 sha256 ripemd160).
 
@@ -161,11 +165,14 @@ Section AddrTextProofs.
   Lemma algo_ck_len x : length (algo_checksum sha512_256 x) = algo_cklen.
   Proof. unfold algo_checksum, take_last. rewrite skipn_length, s5_len. reflexivity. Qed.
 
-  Theorem algo_decode_encode pub s : algo_encode sha512_256 b32_enc_nopad pub = Ok s ->
+  Theorem algo_decode_encode pub s : alph_ok None -> bytes_ok pub ->
+    algo_encode sha512_256 b32_enc_nopad pub = Ok s ->
     length pub = (ed25519_compr_len - 1)%nat -> valid_pub 2 pub = true ->
     algo_decode sha512_256 valid_pub b32_dec s = Ok pub.
   Proof.
-    intros E Hl Hv. unfold algo_decode. unfold algo_encode in E. rewrite (b32_rt _ _ _ E).
+    intros Ha Hb E Hl Hv. unfold algo_decode. unfold algo_encode in E.
+    assert (Hpl : bytes_ok (pub ++ algo_checksum sha512_256 pub)) by (apply bytes_ok_app; split; [exact Hb|apply bytes_ok_skipn, s5_ok]).
+    rewrite (b32_rt _ _ _ Ha Hpl E).
     cbn [bind Ok]. rewrite validate_length_ok.
     2:{ rewrite app_length, algo_ck_len, Hl. reflexivity. }
     cbn [bind Ok]. unfold split_by_checksum.
@@ -176,12 +183,16 @@ Section AddrTextProofs.
   Lemma xlm_ck_len x : length (xlm_checksum crc16_xmodem x) = xlm_cklen.
   Proof. unfold xlm_checksum. rewrite rev_length, crc_len. reflexivity. Qed.
 
-  Theorem xlm_decode_encode t pub s : xlm_encode crc16_xmodem b32_enc_nopad t pub = Ok s ->
+  Theorem xlm_decode_encode t pub s : alph_ok None -> t < 256 -> bytes_ok pub ->
+    xlm_encode crc16_xmodem b32_enc_nopad t pub = Ok s ->
     length pub = (ed25519_compr_len - 1)%nat -> valid_pub 2 pub = true ->
     xlm_decode valid_pub crc16_xmodem b32_dec t s = Ok pub.
   Proof.
-    intros E Hl Hv. unfold xlm_decode. unfold xlm_encode in E.
-    set (payload := [t] ++ pub) in *. rewrite (b32_rt _ _ _ E).
+    intros Ha Ht Hb E Hl Hv. unfold xlm_decode. unfold xlm_encode in E.
+    set (payload := [t] ++ pub) in *.
+    assert (Hp : bytes_ok payload) by (constructor; auto).
+    assert (Hpl : bytes_ok (payload ++ xlm_checksum crc16_xmodem payload)) by (apply bytes_ok_app; split; [exact Hp|apply bytes_ok_rev, crc_ok]).
+    rewrite (b32_rt _ _ _ Ha Hpl E).
     cbn [bind Ok]. rewrite validate_length_ok.
     2:{ rewrite app_length, xlm_ck_len. unfold payload. rewrite app_length, Hl. reflexivity. }
     cbn [bind Ok]. unfold split_by_checksum.
@@ -190,10 +201,11 @@ Section AddrTextProofs.
     unfold validate_checksum. fold payload. rewrite list_eqb_refl. cbn [bind Ok]. rewrite Hv. reflexivity.
   Qed.
 
-  Theorem fil_decode_encode pub_u s : fil_encode blake2b b32_enc_nopad pub_u = Ok s ->
+  Theorem fil_decode_encode pub_u s : alph_ok (Some fil_alphabet) ->
+    fil_encode blake2b b32_enc_nopad pub_u = Ok s ->
     fil_decode blake2b b32_dec s = Ok (blake2b blake2b160_len pub_u).
   Proof.
-    unfold fil_encode. set (h := blake2b blake2b160_len pub_u).
+    intros Ha. unfold fil_encode. set (h := blake2b blake2b160_len pub_u).
     destruct (b32_enc_nopad (Some fil_alphabet) (h ++ fil_checksum blake2b fil_secp_type h)) as [e|] eqn:E;
       cbn [bind Ok]; [|discriminate].
     intros H. assert (Hs : s = fil_prefix ++ [48 + fil_secp_type] ++ e) by (unfold Ok in H; congruence).
@@ -202,7 +214,8 @@ Section AddrTextProofs.
     assert (T : Z.eqb (Z.of_N (48 + fil_secp_type) - 48) (Z.of_N fil_secp_type) = true) by (vm_compute; reflexivity).
     rewrite T. cbn [negb].
     assert (Hck : length (fil_checksum blake2b fil_secp_type h) = blake2b32_len) by apply b2b_len.
-    rewrite (b32_rt _ _ _ E).
+    assert (Hpl : bytes_ok (h ++ fil_checksum blake2b fil_secp_type h)) by (apply bytes_ok_app; split; apply b2b_ok).
+    rewrite (b32_rt _ _ _ Ha Hpl E).
     cbn [bind Ok]. rewrite validate_length_ok.
     2:{ rewrite app_length, Hck. unfold h. rewrite b2b_len. reflexivity. }
     cbn [bind Ok]. unfold split_by_checksum.
@@ -211,23 +224,27 @@ Section AddrTextProofs.
   Qed.
 
   (* Nano: the three zero pad bytes encode to the four pad symbols, which are cut off and put back *)
-  Hypothesis nano_pad_law : forall x e, b32_enc_nopad (Some nano_alphabet) (nano_pad_dec ++ x) = Ok e ->
+  Hypothesis nano_pad_law : forall x e, bytes_ok x ->
+    b32_enc_nopad (Some nano_alphabet) (nano_pad_dec ++ x) = Ok e ->
     firstn (length nano_pad_enc) e = nano_pad_enc.
 
-  Theorem nano_decode_encode pub s : nano_encode blake2b b32_enc_nopad pub = Ok s ->
+  Theorem nano_decode_encode pub s : alph_ok (Some nano_alphabet) -> bytes_ok pub ->
+    nano_encode blake2b b32_enc_nopad pub = Ok s ->
     length pub = (ed25519_compr_len - 1)%nat -> valid_pub 3 pub = true ->
     nano_decode blake2b valid_pub b32_dec s = Ok pub.
   Proof.
-    unfold nano_encode. set (body := pub ++ nano_checksum blake2b pub).
+    intros Ha Hb. unfold nano_encode. set (body := pub ++ nano_checksum blake2b pub).
     destruct (b32_enc_nopad (Some nano_alphabet) (nano_pad_dec ++ body)) as [e|] eqn:E; cbn [bind Ok]; [|discriminate].
-    intros H Hl Hv. assert (Hs : s = nano_prefix ++ skipn (length nano_pad_enc) e) by (unfold Ok in H; congruence).
+    intros H Hl Hv.
+    assert (Hbody : bytes_ok body) by (apply bytes_ok_app; split; [exact Hb|apply bytes_ok_rev, b2b_ok]).
+    assert (Hpd : bytes_ok (nano_pad_dec ++ body)) by (apply bytes_ok_app; split; [vm_compute; repeat constructor|exact Hbody]). assert (Hs : s = nano_prefix ++ skipn (length nano_pad_enc) e) by (unfold Ok in H; congruence).
     subst s. clear H. unfold nano_decode.
     assert (Hck : length (nano_checksum blake2b pub) = blake2b40_len).
     { unfold nano_checksum. rewrite rev_length. apply b2b_len. }
     rewrite remove_prefix_app. cbn [bind Ok].
     assert (Ee : nano_pad_enc ++ skipn (length nano_pad_enc) e = e).
-    { pose proof (nano_pad_law _ _ E) as P. rewrite <- P at 1. apply firstn_skipn. }
-    rewrite Ee. rewrite (b32_rt _ _ _ E).
+    { pose proof (nano_pad_law _ _ Hbody E) as P. rewrite <- P at 1. apply firstn_skipn. }
+    rewrite Ee. rewrite (b32_rt _ _ _ Ha Hpd E).
     cbn [bind Ok]. rewrite validate_length_ok.
     2:{ rewrite app_length. unfold body. rewrite app_length, Hck, Hl. vm_compute. reflexivity. }
     cbn [bind Ok]. rewrite skipn_app, Nat.sub_diag, skipn_all. cbn [app skipn].
@@ -237,8 +254,10 @@ Section AddrTextProofs.
   Qed.
 
   (* Nimiq *)
-  Hypothesis b32_enc_in_alph : forall al d s, b32_enc_nopad (Some al) d = Ok s -> forallb (fun c => memb c al) s = true.
-  Hypothesis b32_enc_len20 : forall al d s, length d = 20%nat -> b32_enc_nopad (Some al) d = Ok s -> length s = 32%nat.
+  Hypothesis b32_enc_in_alph : forall al d s, alph_ok (Some al) -> bytes_ok d ->
+    b32_enc_nopad (Some al) d = Ok s -> forallb (fun c => memb c al) s = true.
+  Hypothesis b32_enc_len20 : forall al d s, alph_ok (Some al) -> bytes_ok d -> length d = 20%nat ->
+    b32_enc_nopad (Some al) d = Ok s -> length s = 32%nat.
 
   Lemma nim_groups_filter fuel : forall s, (length s <= fuel)%nat -> forallb (fun c => negb (c =? 32)) s = true ->
     filter (fun c => negb (c =? 32)) (nim_groups fuel s) = s.
@@ -261,16 +280,18 @@ Section AddrTextProofs.
     destruct (N.eqb_spec c 32) as [->|]; [|reflexivity]. vm_compute in H1. discriminate.
   Qed.
 
-  Theorem nim_decode_encode pub s : nim_encode blake2b b32_enc_nopad pub = Ok s ->
+  Theorem nim_decode_encode pub s : alph_ok (Some nim_alphabet) ->
+    nim_encode blake2b b32_enc_nopad pub = Ok s ->
     nim_decode b32_dec s = Ok (firstn nim_hash_len (blake2b blake2b256_len pub)).
   Proof.
-    unfold nim_encode. set (h := firstn nim_hash_len (blake2b blake2b256_len pub)).
+    intros Ha. unfold nim_encode. set (h := firstn nim_hash_len (blake2b blake2b256_len pub)).
     destruct (b32_enc_nopad (Some nim_alphabet) h) as [e|] eqn:E; cbn [bind Ok]; [|discriminate].
     intros H. assert (Hs : s = nim_prefix ++ nim_checksum e ++ [32] ++ nim_groups (length e) e) by (unfold Ok in H; congruence).
     subst s. clear H.
-    pose proof (b32_enc_in_alph _ _ _ E) as HA.
+    assert (Hhb : bytes_ok h) by (apply bytes_ok_firstn, b2b_ok).
+    pose proof (b32_enc_in_alph _ _ _ Ha Hhb E) as HA.
     assert (Hh : length h = 20%nat) by (unfold h; rewrite firstn_length, b2b_len; reflexivity).
-    pose proof (b32_enc_len20 _ _ _ Hh E) as HL.
+    pose proof (b32_enc_len20 _ _ _ Ha Hhb Hh E) as HL.
     unfold nim_decode.
     assert (Fl : filter (fun c => negb (c =? 32)) (nim_prefix ++ nim_checksum e ++ [32] ++ nim_groups (length e) e)
                  = nim_prefix ++ nim_checksum e ++ e).
@@ -292,15 +313,15 @@ Section AddrTextProofs.
     { rewrite <- Lck. rewrite skipn_app, Nat.sub_diag, skipn_all. reflexivity. }
     rewrite F1, S1.
     rewrite HA. cbn [negb]. unfold validate_checksum. rewrite list_eqb_refl. cbn [bind Ok].
-    apply (b32_rt _ _ _ E).
+    apply (b32_rt _ _ _ Ha Hhb E).
   Qed.
 
   (* SS58 *)
-  Theorem substrate_decode_encode curve fmt pub s : valid_pub curve pub = true ->
+  Theorem substrate_decode_encode curve fmt pub s : bytes_ok pub -> valid_pub curve pub = true ->
     substrate_encode ss58_enc fmt pub = Ok s ->
     substrate_decode valid_pub ss58_dec curve fmt s = Ok pub.
   Proof.
-    unfold substrate_encode, substrate_decode. intros Hv E. rewrite (ss58_rt _ _ _ E). rewrite c2v_ok.
+    unfold substrate_encode, substrate_decode. intros Hb Hv E. rewrite (ss58_rt _ _ _ Hb E). rewrite c2v_ok.
     cbn [bind Ok]. rewrite N.eqb_refl. cbn [negb]. rewrite Hv. reflexivity.
   Qed.
 End AddrTextProofs.
